@@ -57,7 +57,7 @@ func c08FindRoles(c *Ctx, rule string) *c08Roles {
 		AllInstrs(f, func(in ssa.Instruction) {
 			switch u := in.(type) {
 			case *ssa.Store:
-				if fa, ok := u.Addr.(*ssa.FieldAddr); ok && strings.HasSuffix(fieldName(fa.X.Type(), fa.Field), "ocispec.Index.Manifests") {
+				if fa, ok := u.Addr.(*ssa.FieldAddr); ok && strings.HasSuffix(fieldName(fa.X.Type(), fa.Field), "ocispec.Index.Manifests") && !pathIsFresh(accessPath(fa.X)) {
 					storesManifests = true
 				}
 			case ssa.CallInstruction:
@@ -190,10 +190,10 @@ func c08SaveSuccessCut(fn *ssa.Function, r *c08Roles, ct *cut) {
 			continue // error discarded: the save may have failed silently — no cut
 		}
 		ne, _, ifs := NilTests(fn, Aliases(e))
-		if len(ifs) == 0 {
-			ct.Instr(sc.(ssa.Instruction))
-		} else {
+		if len(ifs) > 0 {
 			ct.Edges(ne...)
+		} else if ErrFlow(sc, ErrFlowOpts{}).OK {
+			ct.Instr(sc.(ssa.Instruction)) // returned as is: nothing else runs after a failed save
 		}
 	}
 }
